@@ -2,6 +2,8 @@
   C12 — what the tools print is what the archive contains (names, order, sizes, counts).
   (first layer: the numbers the listeners print, in the model)
 -/
+import MotoModel.Proofs.DiskReport
+import MotoModel.Proofs.DiskCount
 import MotoModel.Props.C02
 import MotoModel.Props.C01
 namespace Moto.C12
@@ -76,5 +78,90 @@ theorem announced_blocks_are_chain_blocks (n : Nat) :
 /-- the size list/extract print for a file written by the tool is its content length (C02) -/
 theorem listed_size_is_content_length (n : Nat) :
     (8 * (Disk.reqBlocks n - 1) + Disk.lastSectorsOf n - 1) * 255 + Disk.lastBytesOf n = n := C02.recorded_size_is_exact n
+
+/-! ### disk: the whole report of `--list` and `--extract`
+
+`Disk.readReport p v img` (Proofs/DiskReport.lean) is a *stateless* text: for each side, the
+separator (after the first side, except in a quiet listing), `Side k`, one line per live entry in
+catalog order (`fileText`: catalog name and extension; in verbose mode kind, byte size and block
+count; `...ok` when extracting), the closing line of the side (`endText`: file count, or `empty`,
+and block usage with percentage), then for an extraction `---`, `TOTAL` and the totals. -/
+
+open Moto.Disk in
+/-- **C12 (disk, list)**: for every image of four consistent sides with ordinary names, `--list`
+    returns 0 and prints exactly `readReport 0`: each file once, in catalog order, under its catalog
+    name, with the counts of the sides -/
+theorem disk_list_report (fl : Flavour) (verbose : Bool) (img : Image) (h : ImgOk img) (hn : ∀ k, k < 4 → NiceSide (img.getD k [])) :
+    (list fl verbose (save fl img)).out = [readReport 0 verbose img] ∧ (list fl verbose (save fl img)).status = .ret 0 :=
+  list_report fl verbose img h hn
+
+open Moto.Disk in
+/-- **C12 (disk, extract)**: `--extract` prints exactly the `--into` line (if any) and `readReport 1` -/
+theorem disk_extract_report (fl : Flavour) (verbose : Bool) (archive : Str) (into : Option Str) (img : Image) (h : ImgOk img)
+    (hn : ∀ k, k < 4 → NiceSide (img.getD k [])) :
+    (extract fl verbose archive into (save fl img)).out = [intoText into ++ readReport 1 verbose img] :=
+  extract_report fl verbose archive into img h hn
+
+open Moto.Disk in
+/-- **C12 (one line per file, the true size, the true block count)**: on a consistent side the
+    report has one line per file the extractor writes, in the same order; the byte size printed for
+    an entry is the length of the content read for it, the block count the length of its chain, the
+    name and extension the catalog's -/
+theorem report_lines_are_the_files {sd : Side} {bat : List Nat} {own : Nat → List Nat} (inv : SideInv sd bat own) (dir : Str) :
+    (sideEvs sd).length = (sideFiles sd dir).length
+    ∧ ∀ j, j < 112 → ∀ e, entryAt sd own j = some e →
+        (evOfEntry bat e).bytes = (readFile sd bat e).length ∧ (evOfEntry bat e).blocks = (own j).length
+        ∧ (evOfEntry bat e).name = slice e.rec16 0 8 ∧ (evOfEntry bat e).ext = slice e.rec16 8 11 :=
+  ⟨sideEvs_length_eq_files inv dir, fun j hj e he => event_facts inv j hj e he⟩
+
+open Moto.Disk in
+/-- a quiet listing of one side, spelled out: `Side k`, then `  NAME.EXT` for each file -/
+theorem quiet_listing_side (sb i : Nat) (evs : List FileEv) (u : Usage) :
+    sideText 0 false sb i evs u
+      = Tape.str "Side " ++ digits i ++ [10]
+        ++ evs.flatMap (fun ev => Tape.str "  " ++ rstripBy Tape.isSpace ev.name ++ [46] ++ rstripBy Tape.isSpace ev.ext ++ [10]) := by
+  have hf : fileText 0 false = fun ev => Tape.str "  " ++ rstripBy Tape.isSpace ev.name ++ [46] ++ rstripBy Tape.isSpace ev.ext ++ [10] := by
+    funext ev; simp [fileText]
+  simp [sideText, beginText, endText, hf, List.append_assoc]
+
+open Moto.Disk in
+/-- a quiet extraction of one side, spelled out: separator after the first side, `Side k`,
+    `  NAME.EXT...ok` for each file, then the number of files with its plural -/
+theorem quiet_extract_side (sb i : Nat) (evs : List FileEv) (u : Usage) :
+    sideText 1 false sb i evs u
+      = (if sb + 1 > 1 then Tape.str "---" ++ [10] else []) ++ (Tape.str "Side " ++ digits i ++ [10])
+        ++ evs.flatMap (fun ev => Tape.str "  " ++ rstripBy Tape.isSpace ev.name ++ [46] ++ rstripBy Tape.isSpace ev.ext ++ Tape.str "..." ++ Tape.str "ok" ++ [10])
+        ++ (digits evs.length ++ Tape.str " file" ++ plural evs.length ++ [10]) := by
+  have hf : fileText 1 false = fun ev => Tape.str "  " ++ rstripBy Tape.isSpace ev.name ++ [46] ++ rstripBy Tape.isSpace ev.ext ++ Tape.str "..." ++ Tape.str "ok" ++ [10] := by
+    funext ev; simp [fileText]
+  simp [sideText, beginText, endText, hf, filesText, List.append_assoc]
+
+open Moto.Disk in
+/-- **C12 (create/add: the announced total is the number of files stored)**: on a consistent image,
+    after any batch, the total the closing line prints (`filesAll`) plus the number of files the image
+    held before is the number of files it holds now; for `--create` it is therefore the number of
+    files a later `--extract` writes. -/
+theorem update_total_is_files_added (w : Tape.World) (verbose : Bool) (img : Image) (srcs : List Str)
+    (himg : ImgOk img) (hs : ∀ src ∈ srcs, CleanSrc src) :
+    ∃ st, performCore w verbose img srcs = .ok st ∧ ImgOk st.img ∧ st.l.filesAll + fileCount img = fileCount st.img :=
+  performCore_total w verbose img srcs himg hs
+
+open Moto.Disk in
+theorem create_total_is_files_extracted (w : Tape.World) (verbose : Bool) (srcs : List Str) (hs : ∀ src ∈ srcs, CleanSrc src) (target : Str) :
+    ∃ st, performCore w verbose ((List.replicate 4 blankSide).map initFileSystem) srcs = .ok st
+      ∧ st.l.filesAll = (sidesFiles target st.img 0).length := by
+  obtain ⟨st, h1, hok, hcount⟩ := performCore_total w verbose _ srcs fresh_img_ok hs
+  refine ⟨st, h1, ?_⟩
+  rw [← fileCount_eq_extracted st.img hok.1 target, ← hcount]
+  have h0 : fileCount ((List.replicate 4 blankSide).map initFileSystem) = 0 := by
+    unfold fileCount
+    rw [List.countP_eq_zero]
+    intro p hp
+    obtain ⟨k, j⟩ := p
+    obtain ⟨hk, hj⟩ := (mem_grid k j).mp hp
+    dsimp only
+    rw [C02.fresh_has_no_file k j hk hj]
+    simp
+  omega
 
 end Moto.C12
